@@ -142,9 +142,15 @@ func isBool(t types.Type) bool {
 }
 
 // opaqueStruct: struct types outside the repository are opaque values.
+// transparentExtern: library structs whose fields the repository reads and writes directly.
+var transparentExtern = map[string]bool{"container/ring.Ring": true}
+
 func (e *Engine) opaqueStruct(t types.Type) bool {
 	if n, ok := t.(*types.Named); ok {
 		if _, isS := n.Underlying().(*types.Struct); isS {
+			if n.Obj().Pkg() != nil && transparentExtern[n.Obj().Pkg().Path()+"."+n.Obj().Name()] {
+				return false
+			}
 			return !e.inRepo(n.Obj().Pkg())
 		}
 	}
@@ -451,7 +457,16 @@ func (e *Engine) typeInv(v *Term, t types.Type, mode string, alloc *Term) *Term 
 			return ILe(App("seq.len", SInt, v), capMax)
 		}
 		return TTrue
-	case *types.Pointer, *types.Map, *types.Chan, *types.Signature:
+	case *types.Pointer:
+		// every non-nil pointer of static type *T points to an object allocated with type T
+		if _, isS := u.Elem().Underlying().(*types.Struct); isS {
+			if _, named := u.Elem().(*types.Named); named {
+				e.reg.AddFun("rtype", []string{SInt}, SInt)
+				return And(refOK(v), Implies(Not(Eq(v, IntLit(0))), Eq(App("rtype", SInt, v), IntLit(int64(e.tagOf(u.Elem()))))))
+			}
+		}
+		return refOK(v)
+	case *types.Map, *types.Chan, *types.Signature:
 		return refOK(v)
 	case *types.Slice:
 		return And(refOK(slArr(v)), ILe(IntLit(0), slOff(v)), ILe(IntLit(0), slLen(v)), ILe(slLen(v), slCap(v)),
